@@ -109,6 +109,29 @@ def gen(tier, rng):
                 yield base + " seg=%s gap=1" % ",".join(str(x) for x in c), {"kind": "unread-body-cut", "family": "unread-streamed-body"}
         for segs, kind in splits_for(rng, stream, tier)[-5:]:
             yield base + " seg=%s gap=1" % ",".join(str(x) for x in segs), {"kind": kind, "family": "unread-streamed-body"}
+    # a protocol upgrade: everything behind the head belongs to the new protocol, whether it arrived together with the
+    # head (and sits in the connection's read buffer) or later
+    for i in range(6 if tier == "quick" else 60):
+        payload = body_bytes("ping%d" % i, rng.choice([5, 40, 1500]))
+        pre = rng.below(2)
+        stream = b""
+        acts = []
+        for k in range(pre):
+            stream += AReq(method="GET", target="/pre%d.%d" % (i, k), version="1.1", headers=[("Host", "h")]).render()
+            acts.append(action_str([], respond_str(200, b"ok", True)))
+        r = AReq(method="GET", target="/up%d" % i, version="1.1", headers=[("Host", "h"), ("Upgrade", "x")], framing="upgrade", body=payload)
+        r.conn = rng.choice(["Upgrade", "keep-alive, Upgrade"])
+        h0 = len(stream) + len(r.render_head())
+        stream += r.render()
+        acts.append(action_str([], "U" + hx(b"x")))
+        base = cv_line(stream, acts)
+        yield base, {"kind": "unsplit", "family": "upgrade"}
+        n = len(stream)
+        for c in ([h0], [h0 - 1], [h0 + 1], [h0 + 3], [h0 - 2, 2], [h0, 2], [n - 1]):
+            if all(x > 0 for x in c) and sum(c) < n:
+                yield base + " seg=%s gap=1" % ",".join(str(x) for x in c), {"kind": "upgrade-cut", "family": "upgrade"}
+        for segs, kind in splits_for(rng, stream, tier)[-4:]:
+            yield base + " seg=%s gap=1" % ",".join(str(x) for x in segs), {"kind": kind, "family": "upgrade"}
     # TCP sample
     for i in range(nb, nb + 6):
         stream, acts = base_conv(rng, i)
